@@ -879,16 +879,17 @@ theorem TtlInv.dropStale {s s' : State} (t : TtlInv s) (hnd : AMap.NoDup s'.ttl)
 
 /-! ### the TTL sweeper -/
 
-theorem sweepEvict_none {s : State} {id : Nat} (hg : s.adm.kw.get? id = none) : sweepEvict s id = (s, none) := by
-  unfold sweepEvict
-  rw [Adm.delete_none hg]
+/- `sweepEvict_none` (id not charged), `sweepEvict_skip` (the stored value has not itself expired) and `sweepEvict_take`
+   are in Lemmas/EvictId.lean. -/
 
-theorem sweepEvict_some {s : State} {id : Nat} {wk : WKey} (hg : s.adm.kw.get? id = some wk) :
+/-- A charged id whose stored value fails the sweeper's check is un-charged and its evict hook runs.  (Before the check
+    against the store was added, fix 36c87dc, this held for every charged id.) -/
+theorem sweepEvict_some {s : State} {id : Nat} {wk : WKey} (hg : s.adm.kw.get? id = some wk)
+    (hu : unexpiredWithId s wk.key id = false) :
     sweepEvict s id =
       (applyEvictId { s with adm := { s.adm with kw := s.adm.kw.del id, used := s.adm.used - wk.weight } }
-        (id, wk.key, wk.weight), some (id, wk.key, wk.weight)) := by
-  unfold sweepEvict
-  rw [Adm.delete_some hg]
+        (id, wk.key, wk.weight), some (id, wk.key, wk.weight)) :=
+  sweepEvict_take hg hu
 
 /-- Under `HeldW` (part of `TtlInv`) the key a charged id is charged for is either not stored or stored under this
     very id, so the ticker's id check (`applyEvictId`) never makes a difference in Layer A. -/
@@ -901,21 +902,34 @@ theorem applyEvictId_held {s : State} {id : Nat} {wk : WKey} (hw : HeldW s.adm.k
   applyEvictId_eq_applyEvict_of (fun en hen => hw.2 id wk en hg hen)
 
 theorem sweepEvict_some_held {s : State} {id : Nat} {wk : WKey} (hw : HeldW s.adm.kw s.store)
-    (hg : s.adm.kw.get? id = some wk) :
+    (hg : s.adm.kw.get? id = some wk) (hu : unexpiredWithId s wk.key id = false) :
     sweepEvict s id =
       (applyEvict { s with adm := { s.adm with kw := s.adm.kw.del id, used := s.adm.used - wk.weight } }
         (id, wk.key, wk.weight), some (id, wk.key, wk.weight)) := by
-  rw [sweepEvict_some hg, applyEvictId_held hw hg]
+  rw [sweepEvict_some hg hu, applyEvictId_held hw hg]
+
+/-- **The sweeper's check never fires in Layer A.**  Under `TtlInv` an index entry of a charged id is the CURRENT deadline
+    of the entry stored under the charged key, so when the index entry has come due the stored value has expired: the
+    check `unexpiredWithId` fails and the sweep does what it did before the check was added. -/
+theorem TtlInv.due_expired {s : State} (t : TtlInv s) {sh id x : Nat} {wk : WKey} (hx : s.ttl.get? (sh, id) = some x)
+    (hnow : s.now > x) (hg : s.adm.kw.get? id = some wk) : unexpiredWithId s wk.key id = false := by
+  rcases t.current sh id x hx with hn | ⟨k, e, he, hid, hexp⟩
+  · rw [hn] at hg; cases hg
+  · obtain ⟨wk', hw', hk'⟩ := t.heldW.1 k e he
+    rw [hid, hg] at hw'
+    simp only [Option.some.injEq] at hw'
+    subst hw'
+    rw [hk']
+    exact unexpiredWithId_of_expired he hexp hnow
 
 theorem pendingIds_congr {s s' : State} (h1 : s'.queue = s.queue) (h2 : s'.pend = s.pend) :
     pendingIds s' = pendingIds s := by
   simp only [pendingIds, pendingCmds, h1, h2]
 
 theorem ttlinv_sweepEvict {s : State} (t : TtlInv s) (id : Nat) : TtlInv (sweepEvict s id).1 := by
-  cases hg : s.adm.kw.get? id with
-  | none => rw [sweepEvict_none hg]; exact t
-  | some wk =>
-    rw [sweepEvict_some_held t.heldW hg]
+  rcases sweepEvict_cases s id with h0 | ⟨wk, hg, _, h1⟩
+  · rw [h0]; exact t
+  · rw [h1, applyEvictId_held t.heldW hg]
     obtain ⟨e1, e2, e3, e4, e5, e6, e7, e8, _⟩ := applyEvict_frame
       { s with adm := { s.adm with kw := s.adm.kw.del id, used := s.adm.used - wk.weight } } (id, wk.key, wk.weight)
     refine t.uncharge hg (by rw [e1]) (by rw [applyEvict_store]) e8 e3 e2 (pendingIds_congr e5 e6)
@@ -931,18 +945,25 @@ theorem ttlinv_sweepEntries : ∀ (l : List ((Nat × Nat) × Nat)) (s : State) (
     simp only [sweepEntries]
     exact ih _ _ (ttlinv_sweepEvict t id)
 
-/-- What `sweepEntries` does for a list `l` of index entries: exactly the charged ids of `l` are evicted.
+/-- What `sweepEntries` does for a list `l` of index entries, for EVERY state: the evictions `evNew` are charged ids
+    of `l` whose stored value failed the sweeper's check (`evExpired`: not stored, stored under another id, or past its
+    OWN deadline), and every charged id of `l` is either evicted or passed the check (`evAll`); exactly the evicted ids
+    are un-charged (`kw`).  Under `TtlInv`, for entries that are due, the check never passes, so exactly the charged
+    ids of `l` are evicted (`SweepSpec.evAll_due`, `SweepSpec.kw_due` below: the fields `kw` / `evAll` as they read
+    before the check was added, fix 36c87dc).
     The keys of the evictions leave the store under `HeldW` (part of `TtlInv`, so at every reachable state); without
     it the ticker's id check (`applyEvictId`) may keep some of them (`storeSub`). -/
 structure SweepSpec (s : State) (l : List ((Nat × Nat) × Nat)) (s' : State) (evNew : List Evicted) : Prop where
-  kw : ∀ i, s'.adm.kw.get? i = if i ∈ l.map (·.1.2) then none else s.adm.kw.get? i
+  kw : ∀ i, s'.adm.kw.get? i = if i ∈ evNew.map (·.1) then none else s.adm.kw.get? i
   store : HeldW s.adm.kw s.store → s'.store = AMap.delKeys s.store (evNew.map (·.2.1))
   storeSub : ∃ ks, (∀ k ∈ ks, k ∈ evNew.map (·.2.1)) ∧ s'.store = AMap.delKeys s.store ks
   used : s'.adm.used = s.adm.used - (evNew.map (·.2.2)).sum
   max : s'.adm.max = s.adm.max
   evNodup : (evNew.map (·.1)).Nodup
   evIn : ∀ e ∈ evNew, e.1 ∈ l.map (·.1.2) ∧ ∃ h, s.adm.kw.get? e.1 = some ⟨e.2.1, h, e.2.2⟩
-  evAll : ∀ i ∈ l.map (·.1.2), ∀ wk, s.adm.kw.get? i = some wk → (i, wk.key, wk.weight) ∈ evNew
+  evExpired : ∀ e ∈ evNew, unexpiredWithId s e.2.1 e.1 = false
+  evAll : ∀ i ∈ l.map (·.1.2), ∀ wk, s.adm.kw.get? i = some wk →
+    (i, wk.key, wk.weight) ∈ evNew ∨ unexpiredWithId s wk.key i = true
   ttl : s'.ttl = s.ttl
   now : s'.now = s.now
   cfg : s'.cfg = s.cfg
@@ -959,36 +980,27 @@ theorem sweepEntries_spec : ∀ (l : List ((Nat × Nat) × Nat)) (s : State) (ac
     intro s acc
     refine ⟨[], by simp [sweepEntries], ?_⟩
     exact ⟨by intro i; simp [sweepEntries], fun _ => rfl, ⟨[], by simp, rfl⟩, by simp [sweepEntries], rfl, by simp,
-      by simp, by simp, rfl, rfl, rfl, rfl, rfl, rfl, rfl⟩
+      by simp, by simp, by simp, rfl, rfl, rfl, rfl, rfl, rfl, rfl⟩
   | cons p rest ih =>
     intro s acc
     obtain ⟨⟨sh, id⟩, ex⟩ := p
     simp only [sweepEntries]
-    cases hg : s.adm.kw.get? id with
-    | none =>
-      rw [sweepEvict_none hg]
+    rcases sweepEvict_cases' s id with ⟨h0, hkeep⟩ | ⟨wk, hg, hu, h1⟩
+    · -- the id is not charged, or the value stored under it has not itself expired: nothing happens
+      rw [h0]
       obtain ⟨evNew, he, sp⟩ := ih s acc
       refine ⟨evNew, he, ?_⟩
-      refine ⟨?_, sp.store, sp.storeSub, sp.used, sp.max, sp.evNodup, ?_, ?_, sp.ttl, sp.now, sp.cfg, sp.nextId, sp.worker,
-        sp.queue, sp.pend⟩
-      · intro i
-        rw [sp.kw i]
-        simp only [List.map_cons, List.mem_cons]
-        by_cases h1 : i ∈ rest.map (·.1.2)
-        · simp [h1]
-        · by_cases h2 : i = id
-          · subst h2; simp [hg]
-          · simp [h1, h2]
+      refine ⟨sp.kw, sp.store, sp.storeSub, sp.used, sp.max, sp.evNodup, ?_, sp.evExpired, ?_, sp.ttl, sp.now, sp.cfg,
+        sp.nextId, sp.worker, sp.queue, sp.pend⟩
       · intro e hm
         obtain ⟨a, b⟩ := sp.evIn e hm
         exact ⟨by simp only [List.map_cons, List.mem_cons]; exact Or.inr a, b⟩
       · intro i hi wk' hw
         simp only [List.map_cons, List.mem_cons] at hi
         rcases hi with hi | hi
-        · subst hi; rw [hg] at hw; cases hw
+        · subst hi; exact Or.inr (hkeep wk' hw)
         · exact sp.evAll i hi wk' hw
-    | some wk =>
-      rw [sweepEvict_some hg]
+    · rw [h1]
       obtain ⟨e1, e2, e3, e4, e5, e6, e7, e8, _⟩ := applyEvictId_frame
         { s with adm := { s.adm with kw := s.adm.kw.del id, used := s.adm.used - wk.weight } } (id, wk.key, wk.weight)
       have e0 := applyEvict_store
@@ -1008,12 +1020,18 @@ theorem sweepEntries_spec : ∀ (l : List ((Nat × Nat) × Nat)) (s : State) (ac
         obtain ⟨_, hh, hget⟩ := sp.evIn e hm
         rw [hkw1, heq] at hget
         simp at hget
-      refine ⟨?_, ?_, ?_, ?_, ?_, ?_, ?_, ?_, sp.ttl.trans e8, sp.now.trans e7, sp.cfg.trans e3, sp.nextId.trans e2,
+      have hsub : ∀ k i, unexpiredWithId (applyEvictId
+          { s with adm := { s.adm with kw := s.adm.kw.del id, used := s.adm.used - wk.weight } }
+          (id, wk.key, wk.weight)) k i = true → unexpiredWithId s k i = true := by
+        intro k i h
+        exact unexpiredWithId_applyEvictId_sub
+          { s with adm := { s.adm with kw := s.adm.kw.del id, used := s.adm.used - wk.weight } } (id, wk.key, wk.weight) h
+      refine ⟨?_, ?_, ?_, ?_, ?_, ?_, ?_, ?_, ?_, sp.ttl.trans e8, sp.now.trans e7, sp.cfg.trans e3, sp.nextId.trans e2,
         sp.worker.trans e4, sp.queue.trans e5, sp.pend.trans e6⟩
       · intro i
         rw [sp.kw i, hkw1 i]
         simp only [List.map_cons, List.mem_cons]
-        by_cases h1 : i ∈ rest.map (·.1.2)
+        by_cases h1 : i ∈ evNew.map (·.1)
         · simp [h1]
         · by_cases h2 : i = id
           · subst h2; simp
@@ -1055,24 +1073,81 @@ theorem sweepEntries_spec : ∀ (l : List ((Nat × Nat) × Nat)) (s : State) (ac
           split at hget
           · cases hget
           · exact hget
+      · intro e hm
+        simp only [List.mem_cons] at hm
+        rcases hm with rfl | hm
+        · exact hu
+        · cases hb : unexpiredWithId s e.2.1 e.1 with
+          | false => rfl
+          | true =>
+            have := unexpiredWithId_applyEvictId_keep
+              { s with adm := { s.adm with kw := s.adm.kw.del id, used := s.adm.used - wk.weight } }
+              (id, wk.key, wk.weight) (k := e.2.1) (i := e.1) (hne e hm) hb
+            rw [sp.evExpired e hm] at this
+            cases this
       · intro i hi wk' hw
         by_cases h2 : i = id
         · subst h2
           rw [hg] at hw
           simp only [Option.some.injEq] at hw
           subst hw
-          exact List.mem_cons_self
+          exact Or.inl List.mem_cons_self
         · simp only [List.map_cons, List.mem_cons] at hi
           rcases hi with hi | hi
           · exact absurd hi h2
-          · refine List.mem_cons_of_mem _ (sp.evAll i hi wk' ?_)
-            rw [hkw1]
-            have h3 : ¬ id = i := fun h => h2 h.symm
-            simp [h3, hw]
+          · have h3 : ¬ id = i := fun h => h2 h.symm
+            rcases sp.evAll i hi wk' (by rw [hkw1]; simp [h3, hw]) with h | h
+            · exact Or.inl (List.mem_cons_of_mem _ h)
+            · exact Or.inr (hsub _ _ h)
 
 /-- the entries a sweep at `s` takes out of the index: those of the visited shard whose deadline has passed -/
 def due (s : State) (p : (Nat × Nat) × Nat) : Bool :=
   p.1.1 == secsOf s.now % s.cfg.shards && decide (s.now > p.2)
+
+/-- index entries of `s` whose deadline has passed (what the sweeper is handed: the due entries of one shard) -/
+def DueList (s : State) (l : List ((Nat × Nat) × Nat)) : Prop := ∀ p ∈ l, s.ttl.get? p.1 = some p.2 ∧ s.now > p.2
+
+theorem dueList_filter {s : State} (hn : AMap.NoDup s.ttl) : DueList s (s.ttl.filter (due s)) := by
+  intro p hp
+  obtain ⟨h1, h2⟩ := List.mem_filter.mp hp
+  obtain ⟨⟨sh, i⟩, x⟩ := p
+  simp only [due, Bool.and_eq_true, beq_iff_eq, decide_eq_true_eq] at h2
+  exact ⟨AMap.get?_of_mem hn h1, h2.2⟩
+
+/-- Under `TtlInv`, for due entries, the sweeper's check never passes: every charged id of the list is evicted
+    (the field `evAll` as it read before the check was added). -/
+theorem SweepSpec.evAll_due {s s' : State} {l : List ((Nat × Nat) × Nat)} {evNew : List Evicted}
+    (sp : SweepSpec s l s' evNew) (t : TtlInv s) (hd : DueList s l) :
+    ∀ i ∈ l.map (·.1.2), ∀ wk, s.adm.kw.get? i = some wk → (i, wk.key, wk.weight) ∈ evNew := by
+  intro i hi wk hw
+  rcases sp.evAll i hi wk hw with h | h
+  · exact h
+  · obtain ⟨p, hp, hpi⟩ := List.mem_map.mp hi
+    obtain ⟨⟨sh, j⟩, x⟩ := p
+    simp only at hpi
+    subst hpi
+    obtain ⟨h1, h2⟩ := hd _ hp
+    rw [t.due_expired h1 h2 hw] at h
+    cases h
+
+/-- Under `TtlInv`, for due entries: exactly the ids of the list are un-charged (the field `kw` as it read before the
+    check was added). -/
+theorem SweepSpec.kw_due {s s' : State} {l : List ((Nat × Nat) × Nat)} {evNew : List Evicted}
+    (sp : SweepSpec s l s' evNew) (t : TtlInv s) (hd : DueList s l) :
+    ∀ i, s'.adm.kw.get? i = if i ∈ l.map (·.1.2) then none else s.adm.kw.get? i := by
+  intro i
+  rw [sp.kw i]
+  by_cases h1 : i ∈ evNew.map (·.1)
+  · obtain ⟨e, he, hei⟩ := List.mem_map.mp h1
+    have := (sp.evIn e he).1
+    rw [hei] at this
+    simp [h1, this]
+  · by_cases h2 : i ∈ l.map (·.1.2)
+    · cases hg : s.adm.kw.get? i with
+      | none => simp [h1]
+      | some wk =>
+        exact absurd (List.mem_map.mpr ⟨_, sp.evAll_due t hd i h2 wk hg, rfl⟩) h1
+    · simp [h1, h2]
 
 /-- One sweep, taken apart: the evictions are those of `sweepEntries` over the due entries, then exactly the due
     entries leave the index. -/
@@ -1108,7 +1183,7 @@ theorem ttlinv_sweepStep {s s' : State} {out : Out} (t : TtlInv s) (hs : sweepSt
   · intro a b h
     exact (AMap.get?_filter_some t1.noDup h).1
   · intro sh i x h hnone
-    rw [sp.kw i]
+    rw [sp.kw_due t (dueList_filter t.noDup) i]
     have hdue : due s ((sh, i), x) = true := by
       cases hd : due s ((sh, i), x) with
       | true => rfl
